@@ -88,6 +88,36 @@ func knownScenarios() []scenario {
 			comment: "the JS stub for a CSS file keeps its source index on a context; when a newer file has a higher index the scan loop visits the stub and emits a second metafile entry",
 		},
 		{
+			name: "tsconfig-strict-added",
+			what: "rebuild-stale-after-tsconfig-strict-presence-edit",
+			files: map[string]string{
+				"tsconfig.json": "{ \"compilerOptions\": { } }\n",
+				"app.ts":        "console.log(typeof this);\nvar o: any = { a: 1 };\ndelete o.a;\n",
+			},
+			opts: func(root, out string) api.BuildOptions {
+				o := base("app.ts")(root, out)
+				o.Format = api.FormatCommonJS
+				return o
+			},
+			edit:    map[string]string{"tsconfig.json": "{ \"compilerOptions\": { \"strict\": true } }\n"},
+			comment: "tsAlwaysStrict goes from nil to non-nil: the cache key must tell them apart (directed regression replay, passes on HEAD)",
+		},
+		{
+			name: "tsconfig-alwaysstrict-removed",
+			what: "rebuild-stale-after-tsconfig-strict-presence-edit",
+			files: map[string]string{
+				"tsconfig.json": "{ \"compilerOptions\": { \"alwaysStrict\": true } }\n",
+				"app.ts":        "console.log(typeof this);\nvar o: any = { a: 1 };\ndelete o.a;\n",
+			},
+			opts: func(root, out string) api.BuildOptions {
+				o := base("app.ts")(root, out)
+				o.Format = api.FormatCommonJS
+				return o
+			},
+			edit:    map[string]string{"tsconfig.json": "{ \"compilerOptions\": { } }\n"},
+			comment: "tsAlwaysStrict goes from non-nil to nil (directed regression replay, passes on HEAD)",
+		},
+		{
 			name: "watch-record-of-directory-overwritten-by-file-read",
 			what: "known-F-watch-misses-shadowing-file-after-directory-record-overwritten",
 			files: map[string]string{
@@ -147,7 +177,7 @@ func streamKnown(seed uint64, tmp string) *Stats {
 		writeTree(root, sc.edit, old.Add(time.Hour))
 		for p, t := range sc.relink {
 			abs := filepath.Join(root, filepath.FromSlash(p))
-			must(os.Remove(abs))
+			os.Remove(abs)
 			must(os.Symlink(t, abs))
 		}
 		var dirty []string
@@ -169,6 +199,9 @@ func streamKnown(seed uint64, tmp string) *Stats {
 				st.Fail(sc.what, in, "dirty paths: []", "at least one dirty path: the fresh build result changed")
 			}
 			continue
+		}
+		if fr == fresh0 {
+			st.Histogram["insensitive-scenario:"+sc.name]++ // the edit does not change the fresh result: the replay proves nothing
 		}
 		if rb != fr {
 			g, e := firstDiff(rbc, frc)
